@@ -46,20 +46,20 @@ type e2eAction struct {
 type e2eHook func(dir int, idx int, b []byte) e2eAction
 
 type e2eCfg struct {
-	upload     bool
-	binary     bool
-	escape     bool
-	directory  bool
-	overwrite  bool
-	compress   string // "", "yes", "no", "auto"
-	bufsize    string // e.g. "1k", "10M"; "" = default
-	timeout    int    // server -t; 0 = default 20
-	proto      int    // -1 leave the handshake alone; 0 remove the protocol field (v1); 2, 3, 4, 9 force
-	quiet      bool
-	relays     int  // number of trzsz relays (jump hosts) between the client and the server
-	tunnel     bool // give the client (and the relays) a tunnel connector (TCP on 127.0.0.1)
+	upload    bool
+	binary    bool
+	escape    bool
+	directory bool
+	overwrite bool
+	compress  string // "", "yes", "no", "auto"
+	bufsize   string // e.g. "1k", "10M"; "" = default
+	timeout   int    // server -t; 0 = default 20
+	proto     int    // -1 leave the handshake alone; 0 remove the protocol field (v1); 2, 3, 4, 9 force
+	quiet     bool
+	relays    int  // number of trzsz relays (jump hosts) between the client and the server
+	tunnel    bool // give the client (and the relays) a tunnel connector (TCP on 127.0.0.1)
 	hookTunnel bool // the client's tunnel connection goes through the hook as well (same direction counters)
-	hook       e2eHook
+	hook      e2eHook
 	// events triggered by the harness while the transfer runs
 	onStart func(r *e2eRun)
 	// maximum wall time before the harness gives up (hang detection)
